@@ -367,7 +367,20 @@ def isResize : Event → Bool
   | _ => false
 
 theorem isResize_abs (s : State) (e : Event) : (absEvent s e).isResize = isResize e := by
-  cases e <;> simp [absEvent, CEvent.isResize, isResize]
+  cases e with
+  | readQ i =>
+    simp only [absEvent, isResize]
+    generalize s.pcs[i]? = o
+    rcases o with _ | p
+    · rfl
+    · cases p <;> first | rfl | (rename_i b; cases b <;> rfl)
+  | readKill i =>
+    simp only [absEvent, isResize]
+    generalize s.pcs[i]? = o
+    rcases o with _ | p
+    · rfl
+    · cases p <;> first | rfl | (rename_i b; cases b <;> rfl)
+  | _ => simp [absEvent, CEvent.isResize, isResize]
 
 /-- **Resizing reaches the requested number** (SetWorkerCount after the resize-race repair,
     `swcSet c`: one critical section that computes the delta from `len(workerMap) - workerExiting`).
